@@ -212,10 +212,13 @@ func (z *ZodBool[T]) NonOptional() *ZodBool[bool] {
 	}
 }
 
-// Meta stores metadata in the global registry.
+// Meta returns a new schema with the given metadata stored in the global
+// registry; the receiver and its registry entry are unchanged.
 func (z *ZodBool[T]) Meta(meta core.GlobalMeta) *ZodBool[T] {
-	core.GlobalRegistry.Add(z, meta)
-	return z
+	in := z.internals.Clone()
+	clone := z.withInternals(in)
+	core.GlobalRegistry.Add(clone, meta)
+	return clone
 }
 
 // Describe registers a description in the global registry.
